@@ -665,6 +665,9 @@ func (i *Inst) RunRelay(r *RlScript, tw *TraceWriter, rng *rand.Rand) error {
 			for len(received) < len(produced) && time.Now().Before(deadline) {
 				b, err := t.Recv(5 * time.Second)
 				if err != nil {
+					if strings.Contains(err.Error(), "unframeable") {
+						allwf = false // what the gateway sent at this point is not the head of a packet
+					}
 					break
 				}
 				d := tsgu.Decode(b)
@@ -807,6 +810,9 @@ func (i *Inst) RunRelay(r *RlScript, tw *TraceWriter, rng *rand.Rand) error {
 			for len(received) < len(produced) && time.Now().Before(deadline) {
 				b, err := t.Recv(5 * time.Second)
 				if err != nil {
+					if strings.Contains(err.Error(), "unframeable") {
+						allwf = false // what the gateway sent at this point is not the head of a packet
+					}
 					break
 				}
 				d := tsgu.Decode(b)
@@ -844,6 +850,9 @@ func (i *Inst) RunRelay(r *RlScript, tw *TraceWriter, rng *rand.Rand) error {
 			for len(received) < len(produced) && time.Now().Before(deadline) {
 				b, err := t.Recv(time.Until(deadline))
 				if err != nil {
+					if strings.Contains(err.Error(), "unframeable") {
+						allwf = false
+					}
 					break
 				}
 				d := tsgu.Decode(b)
